@@ -83,6 +83,24 @@ def run_unit(unit, ctx):
     fp = gen.fingerprint([defn, k, cse_py, cse_cpp])
     R.fps_all.append(fp)
     b = build.Built(defn)
+    if i % 3 == 0:
+        # a tuning script: the same filter was generated a moment ago in this process with other noise
+        # values and another calibration; nothing of that earlier generation may reach this one
+        import copy
+
+        other = copy.deepcopy(defn)
+        for sn in other["sensor_noises"]:
+            for rn in other["sensor_noises"][sn]:
+                other["sensor_noises"][sn][rn] = round(other["sensor_noises"][sn][rn] * rng.choice([0.01, 7.0, 300.0]) + 0.125, 6)
+        for c in other["process_noise"]:
+            other["process_noise"][c] = round(other["process_noise"][c] * 5.0 + 0.5, 6)
+        for c in other["calibration_map"]:
+            other["calibration_map"][c] = other["calibration_map"][c] + 1.0
+        try:
+            cppdrv.generate_ekf(build.Built(other), {"common_subexpression_elimination": rng.random() < 0.5})
+            R.stats.inc("earlier_generation_with_other_tuning")
+        except Exception:  # noqa: BLE001 - the decoy is not the object under observation
+            R.stats.inc("earlier_generation_failed")
     armed = monitors.Armed(R, process=True, sensor=True)
     eb = None
     try:
